@@ -1,6 +1,8 @@
 package h
 
 import (
+	"cosmossdk.io/math"
+
 	forwardercomp "github.com/noble-assets/orbiter/v2/keeper/component/forwarder"
 	forwardertypes "github.com/noble-assets/orbiter/v2/types/component/forwarder"
 	fwdtypes "github.com/noble-assets/orbiter/v2/types/controller/forwarding"
@@ -8,7 +10,35 @@ import (
 	"github.com/noble-assets/orbiter/v2/zzverif/verif"
 )
 
-func init() { reg("H_C17_many", H_C17_many) }
+func init() {
+	reg("H_C17_many", H_C17_many)
+	reg("H_C17_denoms", H_C17_denoms)
+}
+
+// H_C17_denoms: statistics of one route in several denominations (one amount entry per denomination, one count entry per
+// route) and of several routes in one denomination: the export validates, initialises a fresh module and re-exports to
+// the same genesis.
+func H_C17_denoms() {
+	w := NewWorld(false)
+	n := 2 + verif.Choose("transfers", 2)
+	for i := 0; i < n; i++ {
+		route := 2 // the internal route carries any denomination
+		denom := []string{nativeDenom, "ueure", "uother"}[verif.Choose("denom", 3)]
+		if denom == nativeDenom {
+			route = verif.Choose("route", 3)
+		}
+		must(transferViaIn(w, route, math.NewInt(int64(100+i)), verif.Bool("with-fee"), denom))
+	}
+	g := w.K.ExportGenesis(w.Ctx)
+	verif.Assert(g.Validate() == nil, "exported-genesis-validates")
+	if g.Validate() != nil {
+		return
+	}
+	w2 := NewWorld(false)
+	w2.K.InitGenesis(w2.Ctx, *g)
+	sameGenesis(g, w2.K.ExportGenesis(w2.Ctx), "re-export")
+	verif.Cover("exported")
+}
 
 // H_C17_many: a state larger than any default page: more paused pairs than one message may carry (two messages of 100
 // and of 1..3 identifiers) and all four protocols paused. The export has every entry, validates, initialises a fresh
